@@ -138,6 +138,11 @@ SameLeafDistances(a, b) ==
   \E ia \in {Info(a)} : \E ib \in {Info(b)} :       \* (bound once; a LET would be re-evaluated per use)
     ia.ls = ib.ls /\ \A p \in ia.ls \X ia.ls : REq(ia.pd[p], ib.pd[p])
 
+\* the same two relations when the source tree's values are already at hand (ctz = CanonTree(ZeroLens(t)), it = Info(t))
+TopologyIs(p, ctz) == CanonTree(ZeroLens(p)) = ctz
+SameDistInfo(ia, ib) == ia.ls = ib.ls /\ \A p \in ia.ls \X ia.ls : REq(ia.pd[p], ib.pd[p])
+LeafDistancesAre(p, it) == \E ip \in {Info(p)} : SameDistInfo(ip, it)
+
 (* ---- domain of trees ---------------------------------------------------------------------- *)
 RECURSIVE NodesOK(_)
 NodesOK(t) == (IsLeaf(t) => t.kids = <<>> /\ t.idx >= 0)
@@ -496,6 +501,15 @@ BinTreesL(S, L) ==
   ELSE UNION {{Node(R(w), -1, <<a, b>>) : w \in L, a \in BinTreesL(BlocksInOrder(P)[1], L), b \in BinTreesL(BlocksInOrder(P)[2], L)}
               : P \in PartitionsK(S, 2)}
 
+(* ---- partner trees of the equality calls: an equal tree (children unordered) and an unequal one *)
+RECURSIVE Mirror(_)
+Mirror(t) == Node(t.len, t.idx, Reverse(TLCEval([k \in DOMAIN t.kids |-> Mirror(t.kids[k])])))
+\* a tree that differs in one branch length (the first leaf's)
+RECURSIVE Stretch(_, _)
+Stretch(t, i) ==
+  IF IsLeaf(t) THEN (IF t.idx = i THEN [t EXCEPT !.len = RAdd(t.len, R(1))] ELSE t)
+  ELSE Node(t.len, -1, TLCEval([k \in DOMAIN t.kids |-> Stretch(t.kids[k], i)]))
+
 (* ------------------------------------------------------------------ nodes: sub-trees, declarative distances
    distance_to / lowest_common_ancestor are methods of every node, not only of leaves.  Rows of the
    parent-pointer table PP(t) (pre-order) name the nodes. *)
@@ -524,6 +538,7 @@ TreeCalls == {"len", "leaves", "walk", "dist", "topo", "lca", "nodeDist", "rootP
               "leafCount", "newick", "newickNoDist", "newickLabels", "str", "repr", "iter", "copy", "nodeCopy",
               "eqHash", "graph", "binary"}
 ScrOps == {"rev", "pop", "fill", "clear", "sort"}
+TreeOps == TreeCalls \cup ScrOps
 OwnList(t) == [q \in 1..Len(LeafList(t)) |-> q - 1]
 \* <<kind of container, content as leaf indices>> that the call hands out; <<>> = nothing the caller could edit
 Handout(t, op) ==
@@ -600,8 +615,8 @@ TextPool == << <<10>>, <<1, 10>>, <<10, 1>>, <<12, 1>>, <<13, 1>>, <<14, 5>>, <<
                <<10, 20, 11>>, <<1, 20, 2>>, <<10, 21, 10>>,                                               \* "a e", "1 2", a<tab>a
                <<22, 10, 22>>, <<23, 10, 23>>, <<24, 1, 25>> >>                                            \* 'a' "a" [1]
 InjectiveSeqs(n, S) == {s \in [1..n -> S] : \A p, q \in 1..n : p # q => s[p] # s[q]}
-LabelLists(n) ==
-  InjectiveSeqs(n, NumeralPool(n))
+LabelLists(n, full) ==                       \* full = FALSE: of the numerals only the permutations of the indices
+  InjectiveSeqs(n, IF full THEN NumeralPool(n) ELSE {Digits(i) : i \in 0..(n - 1)})
   \cup {[q \in 1..n |-> IF q = p THEN TextPool[x] ELSE Digits(IF rev THEN n - q ELSE q - 1)]
           : p \in 1..n, x \in DOMAIN TextPool, rev \in BOOLEAN}
   \cup {[q \in 1..n |-> TextPool[((q + s) % Len(TextPool)) + 1]] : s \in DOMAIN TextPool}
